@@ -110,6 +110,9 @@ func runHarness(l *Loaded, pc *PropConfig, fn *ssa.Function, solver *Solver, tie
 	if pc.Unwind > 0 {
 		ex.unwind = pc.Unwind
 	}
+	if tier == "thorough" {
+		ex.fallbackBudget = 90 * time.Second
+	}
 	hr := &HarnessResult{Name: fn.Name(), Paths: map[string]int{}, Msgs: map[string]int{}}
 	func() {
 		defer func() {
